@@ -66,3 +66,50 @@ package parser
 //@ func (*Parser).parseCommandDefaultBinaryExpr
 //@   requires p != nil
 //@   recdecreases 22 - minPrecedence
+
+// ---- one keyword/symbol table, three implementations (C18) --------------------------------
+// `glyph expand` writes a keyword where the compact source has a symbol (pkg/formatter tables);
+// the expanded text parses to the same tree only if the expanded lexer turns each keyword into
+// the token the compact lexer produces for the symbol. Both lexers are checked against one table
+// (symbol -> token type); the formatter's two tables are checked to be mutually inverse and equal
+// to the same pairing by structural scans (global-maps-inverse, global-map-equals).
+//@ spec func peekOf(l *Lexer) byte = ite(l.readPosition >= len(l.input), 0, l.input[l.readPosition])
+//@ func (*Lexer).readChar
+//@   mathint
+//@   requires l != nil && l.readPosition >= 0
+//@   modifies l.ch, l.position, l.readPosition, l.column
+//@   ensures l.readPosition == old(l.readPosition) + 1 && l.position == old(l.readPosition)
+//@   ensures l.ch == ite(old(l.readPosition) >= len(l.input), 0, l.input[old(l.readPosition)])
+//@ func (*Lexer).peekChar
+//@   requires l != nil && l.readPosition >= 0
+//@   modifies nothing
+//@   ensures result == peekOf(l)
+//@ func (*Lexer).nextToken
+//@   requires l != nil && l.readPosition >= 0
+//@   ensures old(l.ch) == '@' ==> result.Type == AT
+//@   ensures old(l.ch) == ':' ==> result.Type == COLON
+//@   ensures old(l.ch) == '$' ==> result.Type == DOLLAR
+//@   ensures old(l.ch) == '>' && old(peekOf(l)) != '=' ==> result.Type == GREATER
+//@   ensures old(l.ch) == '+' ==> result.Type == PLUS
+//@   ensures old(l.ch) == '%' ==> result.Type == PERCENT
+//@   ensures old(l.ch) == '<' && old(peekOf(l)) != '=' ==> result.Type == LESS
+//@   ensures old(l.ch) == '?' ==> result.Type == QUESTION
+//@   ensures old(l.ch) == '~' ==> result.Type == TILDE
+//@   ensures old(l.ch) == '*' ==> result.Type == STAR
+//@   ensures old(l.ch) == '!' && old(peekOf(l)) != '=' ==> result.Type == BANG
+//@   ensures old(l.ch) == '&' && old(peekOf(l)) != '&' ==> result.Type == AMPERSAND
+//@   ensures old(l.ch) == '=' && old(peekOf(l)) != '=' && old(peekOf(l)) != '>' ==> result.Type == EQUALS
+//@ func (*ExpandedLexer).readIdentifier
+//@   ensures result.Literal == "route" ==> result.Type == AT
+//@   ensures result.Literal == "type" ==> result.Type == COLON
+//@   ensures result.Literal == "let" ==> result.Type == DOLLAR
+//@   ensures result.Literal == "return" ==> result.Type == GREATER
+//@   ensures result.Literal == "middleware" ==> result.Type == PLUS
+//@   ensures result.Literal == "use" ==> result.Type == PERCENT
+//@   ensures result.Literal == "expects" ==> result.Type == LESS
+//@   ensures result.Literal == "validate" ==> result.Type == QUESTION
+//@   ensures result.Literal == "handle" ==> result.Type == TILDE
+//@   ensures result.Literal == "cron" ==> result.Type == STAR
+//@   ensures result.Literal == "command" ==> result.Type == BANG
+//@   ensures result.Literal == "queue" ==> result.Type == AMPERSAND
+//@   ensures result.Literal == "func" ==> result.Type == EQUALS
